@@ -48,6 +48,10 @@ def run_workers(cases: List[Dict[str, Any]]):
             for order, path in (("fwd", inp), ("rev", rinp)):
                 env = child_env()
                 env.pop("MCP_FORCE_FALLBACK", None)
+                if order == "rev":
+                    # the reverse-order processes also hold an unrelated application module whose generic aliases share
+                    # their names with model classes
+                    env["VF_APP_MODULE"] = "1"
                 procs[(b, order)] = subprocess.Popen([PY, "-B", "-m", "vf.workers.model_worker", b, path,
                                                       os.path.join(tmp, f"{b}_{order}.pkl")],
                                                      env=env, cwd=ROOT, stdout=subprocess.PIPE, stderr=subprocess.PIPE)
